@@ -682,7 +682,7 @@ def replay_stage(ctx, sat, unsat_cases):
         ctx.count("replay:proofrec-not-importable")
         return
     plain, clash, near, opaque = make_atoms(T)
-    for i in range(ctx.scale(24, 200)):
+    for i in range(ctx.scale(18, 200)):
         pool = plain if rng.random() < 0.6 else plain[:2] + clash[:3]
         if rng.random() < 0.6:
             F = T.Not(gen_unsat_formula(rng, pool, T, 0.1 if rng.random() < 0.3 else 0.0))
@@ -709,6 +709,138 @@ def replay_stage(ctx, sat, unsat_cases):
         if (taut and res != "proved") or (not taut and res != "not-provable"):
             cls = "repeated-literal-clause" if has_twin_args(F) else classify_formula(F)
             ctx.violation("proofrec:%s:%s" % (res, cls), "proofrec.solve_cnf on the %s %s: %s" % ("tautology" if taut else "non-tautology", F, res), rp)
+
+
+def make_zchaff_trace(cnf, proofs):
+    """A zChaff `resolve_trace` for an unsatisfiable CNF (variables = zChaff indices) from a trace of solve_cnf:
+    one CL line per learned clause except the final empty one, then the level-0 implications (VAR lines, in propagation
+    order) and the conflicting clause (CONF line).  Returns (text, learned clauses)."""
+    clauses = [list(dict.fromkeys(c)) for c in cnf]
+    n0 = len(clauses)
+    lines = []
+    for cid, steps in proofs[:-1]:
+        cur = list(clauses[steps[0]])
+        for st in steps[1:]:
+            d = clauses[st]
+            piv = [l for l in cur if (l[0], not l[1]) in d][0][0]
+            cur = list(dict.fromkeys([l for l in cur if l[0] != piv] + [l for l in d if l[0] != piv]))
+        lines.append("CL: %d <= %s" % (cid, " ".join(str(x) for x in steps)))
+        clauses.append(cur)
+    code = lambda n, b: str(2 * n + (0 if b else 1))         # noqa
+    asg = {}
+    while True:
+        for cid, cl in enumerate(clauses):
+            if any(asg.get(n) == b for n, b in cl):
+                continue
+            un = [(n, b) for n, b in cl if n not in asg]
+            if len(un) == 0:
+                lines.append("CONF: %d == %s" % (cid, " ".join(code(n, b) for n, b in cl)))
+                return "\n".join(lines) + "\n", clauses[n0:]
+            if len(un) == 1:
+                n, b = un[0]
+                asg[n] = b
+                lines.append("VAR: %d L: 0 V: %d A: %d Lits: %s" % (n, 1 if b else 0, cid, " ".join(code(m, bb) for m, bb in cl)))
+                break
+        else:
+            return None, clauses[n0:]
+
+
+def zchaff_stage(ctx, sat):
+    """(c) the real `zChaff.solve` (trace parsing, replay with logic.resolution, VAR/CONF sections, discharge) on traces
+    generated from our solver; the zChaff binary is replaced by a stub that reports UNSAT."""
+    from kernel import term as T, theory, report
+    from logic import basic
+    basic.load_theory('sat')
+    try:
+        import importlib
+        zchaff = importlib.import_module("sat.zchaff")
+    except Exception:  # noqa
+        ctx.count("zchaff:module-not-importable")
+        return
+    rng = ctx.rng("zchaff")
+    plain, clash, near, opaque = make_atoms(T)
+
+    class FakeProcess:
+        def __init__(self, *a, **k):
+            pass
+
+        def communicate(self):
+            return (b"c stub\nRESULT:\tUNSAT\r\n", b"")
+
+    def run_one(F):
+        z = zchaff.zChaff(T.Not(F))
+        zc = [[(abs(l), l > 0) for l in cl] for cl in z.cnf_list]
+        res = sat.solve_cnf([[("y%d" % n, b) for n, b in cl] for cl in zc])
+        if res[0] != "unsatisfiable":
+            return ("not-unsat",), None
+        proofs = sorted((int(k), [int(x) for x in v]) for k, v in res[1].items())
+        trace, learned = make_zchaff_trace(zc, proofs)
+        if trace is None:
+            return ("no-level0-conflict",), None
+        with open(".\\resolve_trace", "w") as fh:
+            fh.write(trace)
+        n0 = len(zc)
+        pt = z.solve()
+        rpt = report.ProofReport()
+        th = theory.check_proof(pt.export(), rpt, check_level=1)
+        good = pt.prop == F and len(pt.hyps) == 0 and th == pt.th and len(rpt.gaps) == 0
+        replayed = []
+        for k in range(n0, n0 + len(proofs) - 1):
+            prop = z.clause_pt[k].prop
+            replayed.append(sorted(set((z.var_index[l.arg if l.is_not() else l], not l.is_not()) for l in ([] if prop == T.false else prop.strip_disj()))))
+        return ("proved" if good else "bad-theorem",), (zc, proofs, replayed)
+
+    old_cwd, old_popen = os.getcwd(), zchaff.subprocess.Popen
+    work = os.path.join(ctx.scratch, "zchaff")
+    os.makedirs(os.path.join(work, "sat"), exist_ok=True)
+    os.chdir(work)
+    zchaff.subprocess.Popen = FakeProcess
+    lines, impl = [], []
+    try:
+        # is the stub still wired the way solve() expects (paths, attributes)?  if not: nothing to tie, not an alarm
+        try:
+            with time_limit(120):
+                probe, _ = run_one(T.Or(plain[0], T.Not(plain[0])))
+        except Timeout:
+            raise
+        except BaseException as e:  # noqa
+            probe = ("raise", type(e).__name__)
+        if probe != ("proved",):
+            ctx.count("zchaff:stream-unavailable:%s" % "/".join(str(x) for x in probe))
+            return
+        for i in range(ctx.scale(12, 150)):
+            pool = plain if rng.random() < 0.7 else plain[:2] + clash[:2]
+            F = T.Not(gen_unsat_formula(rng, pool, T, 0.1 if rng.random() < 0.3 else 0.0))
+            ctx.case(("zchaff", str(F)), nontrivial=True)
+            try:
+                with time_limit(180):
+                    res, info = run_one(F)
+            except Timeout:
+                raise
+            except BaseException as e:  # noqa
+                res, info = ("raise", type(e).__name__), None
+            ctx.count("zchaff:%s" % "/".join(str(x) for x in res))
+            if res == ("bad-theorem",):
+                ctx.violation("zchaff:bad-theorem:%s" % classify_formula(F), "zChaff.solve returned a theorem that is not |- %s or does not check" % F,
+                              {"formula": str(F), "term": repr_term(F), "kind": "zchaff"})
+            elif res[0] == "raise":
+                ctx.broken("correspondence:c15:zchaff-replay", "zChaff.solve raised %s on the tautology %s with a generated trace" % (res[1], F))
+            elif info is not None:
+                zc, proofs, replayed = info
+                lines.append(sexp.dumps(["zreplay", s_cnf([list(dict.fromkeys(c)) for c in zc]), [p for _, p in proofs[:-1]]]))
+                impl.append((str(F), len(zc), replayed))
+    finally:
+        os.chdir(old_cwd)
+        zchaff.subprocess.Popen = old_popen
+    out = ctx.lean_driver(EXE, lines) if lines else []
+    ndis = 0
+    for (fs, n0, replayed), line in zip(impl, out or []):
+        m = None if line == "none" else [sorted(set((int(n), b == "T") for n, b in cl)) for cl in sexp.loads(line)][n0:]
+        ctx.count("zchaff:replayed-clauses-compared")
+        if m != replayed:
+            ndis += 1
+            if ndis <= 3:
+                ctx.broken("correspondence:c15:zchaff-replay", "formula=%s impl=%s model=%s" % (fs, replayed, m))
 
 
 # ------------------------------------------------------------------ Gen.lean (translated encode_* rules)
@@ -1057,6 +1189,7 @@ def run(ctx):
     step = max(1, len(UNSAT_TRACES) // k)
     replay_stage(ctx, sat, UNSAT_TRACES[::step][:k])
     del UNSAT_TRACES[:]
+    zchaff_stage(ctx, sat)
 
 
 def load_corpus(ctx):
